@@ -635,6 +635,11 @@ def rule_auxv_pairs(ctx, R="C18/auxv-pairs"):
             okn = bool(dnf2)
             for c in dnf2 or []:
                 fused = any(strip(a) == ("field", ("param", 1), "keep_going") and v_ == 0 for (a, v_) in c)
+                # the test-and-clear spelled `mem::replace(&mut self.keep_going, false)` / `mem::take(&mut self.keep_going)`: its result is the old flag
+                # (accepted only if, on MIR places, the reference handed to it is to the field itself — rules/c02.py flag_clears)
+                from rules import c02 as _c02f
+                fused = fused or (bool(_c02f.flag_clears(b)) and any(strip(a)[0] == "call" and strip(a)[1] in ("std::mem::replace", "std::mem::take") and strip(a)[2]
+                                     and strip(strip(a)[2][0]) == ("field", ("param", 1), "keep_going") and v_ == 0 for (a, v_) in c))
                 at_null = any(core(a)[0] == "bin" and core(a)[1] == "Eq" and v_ == 1 and is_const(core(core(a)[3])) and core(core(a)[3])[1] == 0
                               and any(q[0] == "call" and q[1].endswith("reader::read_long") for q in walk(core(a)[2])) for (a, v_) in c)
                 okn = okn and (fused or at_null)
